@@ -50,6 +50,8 @@ Selectors == {"same", "none", "shift", "firstonly", "extra"}
 \* the whole trajectory); "split_assoc": that associated file is produced later
 \* by create_associated from an existing base file - two files, each with its
 \* OWN species list
+\* DataTypes: besides 32-bit integers, floats and strings the field sets hold 64-bit integers - scalar, per thrust mode and
+\* per point - with values beyond 2^53 (which no float64 can hold): they read back as the same integers
 \* "save_retry": an in-memory store whose first save - asking for an associated file at a path that cannot be
 \* created - is refused, then saved into one file: a refused save leaves nothing behind that a later save sees
 Layouts == {"single", "assoc_at_create", "create_associated", "save_from_memory", "save_retry", "evicted", "split", "split_assoc"}
